@@ -35,7 +35,12 @@ ASSUMPTIONS = [
 
 CALC_GROUP = {"xray_n": "xray", "xray_N": "xray", "xray_all_fwd": "xray", "xray_all_rev": "xray", "neutron_sld": "neutron", "neutron_scattering": "neutron", "xray_sld": "xray", "volume": "covalent_radius",
               "activation": "activation", "list": "covalent_radius", "emission_table": "emission", "sld_table": "neutron",
-              "D2O_sld": "neutron", "fasta": "neutron", "xray_f0": "xray", "magnetic": "magnetic_ff"}
+              "D2O_sld": "neutron", "fasta": "neutron", "xray_f0": "xray", "magnetic": "magnetic_ff",
+              "activation_iaea": "activation", "abundance_fns": "activation", "activity_fn": "activation",
+              "composite_sld": "neutron", "D2O_match": "neutron", "formula_methods": "neutron", "refraction": "xray",
+              "from_atoms": "neutron", "atom_methods": "neutron", "xsf_sld_table": "xray", "edep_table": "neutron",
+              "comparison_tables": "neutron", "print_scattering": "neutron", "cromermann": "xray",
+              "volume_routes": "covalent_radius"}
 INIT_GROUP = {"nsf.init": "neutron", "xsf.init": "xray", "xsf.init_spectral_lines": "emission",
               "covalent_radius.init": "covalent_radius", "crystal_structure.init": "crystal_structure",
               "magnetic_ff.init": "magnetic_ff", "activation.init": "activation", "mass.init": None, "density.init": None}
@@ -66,7 +71,8 @@ def reduced_alphabet():
                 evs.append([means, p, r, "public"])
     evs += [["import", m] for m in H.MODULES]
     evs += [["init", e, "public"] for e in H.INIT_ENTRIES + H.RELOAD_ENTRIES]
-    evs += [["calc", c, "public"] for c in H.CALCS]
+    # the event-only calculators (printed tables, legacy entry points) are in the full alphabet only
+    evs += [["calc", c, "public"] for c in H.CALCS if c not in H.EVENT_ONLY_CALCS[2:]]
     return evs
 
 
